@@ -41,6 +41,8 @@ void vp_tags_init (void) {
 #define V_LONG_L1    0x4000u  /* C14 L1 */
 #define V_ALLFALSE_W 0x10000u /* C06 */
 #define V_H4         0x20000u /* C02 H4 */
+#define V_LONG_KEEP  0x40000u /* C02/C14 L4 */
+#define V_ENQ_ALLF   0x80000u /* C02/C06 */
 #define V_QUEUED     0x8000u  /* C03: acquisition by a queued waiter that has not observed its wake-up with acquire order */
 
 /* Decide which typed transition (old -> new) is for a thread with ghost *g,
@@ -109,6 +111,12 @@ unsigned vp_mu_step (uint32_t old, uint32_t new_, struct vp_mu_ghost *g, int ord
 	if ((old & MU_LONG_WAIT) != 0 && (new_ & MU_LONG_WAIT) == 0) {
 		if (!(acq_lock && old_hold == VP_NONE && was_waited)) viol |= V_LONG_CLEAR;
 	}
+	/* C02/C14 L4: the thread that raised MU_LONG_WAIT clears it in the step in which it acquires: nobody else will, and with the bit
+	   set no thread that has not waited can ever acquire the free mutex */
+	if (acq_lock && old_hold == VP_NONE) {
+		if (g->longw_set && (new_ & MU_LONG_WAIT) != 0) viol |= V_LONG_KEEP;
+		g->longw_set = 0;
+	}
 	if ((old & MU_LONG_WAIT) == 0 && (new_ & MU_LONG_WAIT) != 0) g->longw_set = 1;
 	/* C02 H2: a woken waiter clears MU_DESIG_WAKER in the very step in which it acquires or re-enqueues */
 	if (was_waited && old_hold == VP_NONE && (acq_lock || acq_spin) && (new_ & MU_DESIG_WAKER) != 0) viol |= V_DESIG_H2;
@@ -124,6 +132,12 @@ unsigned vp_mu_step (uint32_t old, uint32_t new_, struct vp_mu_ghost *g, int ord
 	   (unless it is the scanning thread, which owns the spinlock, or the release is nsync_mu_unlock_without_wakeup) */
 	if (rel_lock && old_hold == VP_WRITER && g->hold == VP_NONE && !had_spin && !acq_spin && !g->no_wakeup_ctx &&
 	    (new_ & MU_ALL_FALSE) != 0) viol |= V_ALLFALSE_W;
+	/* C02/C06: a thread that takes the queue spinlock in order to ADD a waiter (every taker except the scanning thread of
+	   nsync_mu_unlock_slow_, which sets MU_DESIG_WAKER in that step or has set it, a timed-out waiter dequeuing itself, which acquires
+	   the lock in the same step, and an observer) clears MU_ALL_FALSE in that step: the new waiter has not been examined, and a
+	   reader's release would otherwise skip the wake-up */
+	if (acq_spin && !acq_lock && !g->observer && !g->set_desig && !g->scan_ctx && !((old & MU_DESIG_WAKER) == 0 && (new_ & MU_DESIG_WAKER) != 0) &&
+	    (new_ & MU_WAITING) != 0 && (new_ & MU_ALL_FALSE) != 0) viol |= V_ENQ_ALLF;
 	/* enqueue bookkeeping (C14 L1 is asserted by the harness of lock_slow from these) */
 	if (acq_spin && old_hold == VP_NONE && !acq_lock) {
 		/* C14 L1: a waiter that was woken LONG_WAIT_THRESHOLD times and lost sets MU_LONG_WAIT when it re-enqueues */
@@ -186,6 +200,8 @@ static void mu_check (unsigned viol) {
 	VP_ASSERT (!(viol & V_DESIG_SET), "C02: MU_DESIG_WAKER is set only by a lock holder together with taking the spinlock");
 	VP_ASSERT (!(viol & V_ALLFALSE), "C06: MU_ALL_FALSE is set only under the queue spinlock");
 	VP_ASSERT (!(viol & V_ALLFALSE_W), "C06: a writer's release (nsync_mu_unlock) clears MU_ALL_FALSE, because its critical section may have made conditions true");
+	VP_ASSERT (!(viol & V_LONG_KEEP), "C02/C14: the thread that raised MU_LONG_WAIT clears it in the step in which it acquires (otherwise no thread that has not waited can ever acquire the free mutex)");
+	VP_ASSERT (!(viol & V_ENQ_ALLF), "C02/C06: whoever takes the queue spinlock to add a waiter clears MU_ALL_FALSE (the new waiter has not been examined; a reader's release would skip its wake-up)");
 	VP_ASSERT (!(viol & V_LONG_L1), "C14: a waiter woken LONG_WAIT_THRESHOLD times sets MU_LONG_WAIT when it goes back to sleep");
 	VP_ASSERT (!(viol & V_QUEUED), "C03: a queued waiter re-acquires only after observing its wake-up with an acquire load, or after dequeuing itself");
 	VP_ASSERT (!(viol & V_H4), "C02: MU_WAITING is not cleared while waiters remain queued (nobody sleeps on a mutex that looks uncontended)");
@@ -420,7 +436,8 @@ static uint32_t cv_load (nsync_atomic_uint32_ *p, int order) { (void) order; cv_
 static void cv_store (nsync_atomic_uint32_ *p, uint32_t v, int order) {
 	cv_interfere (p);
 	VP_ASSERT (vp_cvg.spin, "C04: the cv word is stored only by the owner of its spinlock");
-	VP_ASSERT ((v & CV_SPINLOCK) == 0 && (v & ~(CV_SPINLOCK | CV_NON_EMPTY)) == 0, "C04: the owner's store releases the cv spinlock");
+	VP_ASSERT ((v & CV_SPINLOCK) == 0 && (v & ~(CV_SPINLOCK | CV_NON_EMPTY)) == 0, "C04/C16: the owner's store releases the cv spinlock");
+	VP_ASSERT (!vp_g.observer || (v & CV_NON_EMPTY) == (*p & CV_NON_EMPTY), "C16: an observer changes nothing but the cv spinlock bit");
 	VP_ASSERT (order == VP_REL || order == VP_ACQREL, "C03: releasing the cv spinlock is a release");
 	if (vp_cvg.in_wait && (v & CV_NON_EMPTY) != 0 && !vp_cvg.self_dequeued) vp_cvg.enq_done = 1;
 	vp_cvg.spin = 0;
